@@ -1,0 +1,40 @@
+//! Verification seam for the pacing delays of [`SerialSignBus`](crate::SerialSignBus).
+//!
+//! Only compiled with the `verif-hooks` feature. With no handler installed, [`sleep`]
+//! is exactly [`std::thread::sleep`], so enabling the feature alone changes nothing.
+
+use std::cell::RefCell;
+use std::fmt::{self, Debug, Formatter};
+use std::time::Duration;
+
+/// A boxed pause handler.
+pub struct Handler(Box<dyn FnMut(Duration)>);
+
+impl Debug for Handler {
+    fn fmt(&self, f: &mut Formatter<'_>) -> fmt::Result {
+        write!(f, "<pause handler>")
+    }
+}
+
+thread_local! {
+    static HANDLER: RefCell<Option<Handler>> = const { RefCell::new(None) };
+}
+
+/// Installs (or with `None` removes) the pause handler of the current thread.
+pub fn set_handler(handler: Option<Box<dyn FnMut(Duration)>>) {
+    HANDLER.with(|h| *h.borrow_mut() = handler.map(Handler));
+}
+
+/// Pauses for `duration`: hands it to the installed handler, or really sleeps if there is none.
+pub fn sleep(duration: Duration) {
+    let handled = HANDLER.with(|h| match h.borrow_mut().as_mut() {
+        Some(handler) => {
+            (handler.0)(duration);
+            true
+        }
+        None => false,
+    });
+    if !handled {
+        std::thread::sleep(duration);
+    }
+}
